@@ -552,7 +552,7 @@ def run_conc(tier, seed):
     stripped = [pg.strip(P) for P in progs]
     # the loop on the error paths (a failed / a cancelled await with a node still running): one observation per scenario,
     # carried by a one-call-site program so that DfCheck's clause C17.loop-blocked decides it like the others
-    dummy = {"params": [], "sites": [{"kind": "call", "fn": "mix", "args": [pg.r_const(101)], "kw": [], "active": pg.r_none(), "unpack": 0, "sub": 0, "setup": False}],
+    dummy = {"params": [], "sites": [{"kind": "call", "fn": "mix", "args": [pg.r_const(101)], "kw": [], "active": pg.r_none(), "unpack": 0, "sub": 0, "setup": False, "debug": False}],
              "ret": {"shape": "single", "refs": [pg.r_site(1)], "keys": []}, "subs": []}
     stripped.append(dummy)
     scen = error_path_scenarios()
@@ -562,7 +562,7 @@ def run_conc(tier, seed):
     path = os.path.join(common.CACHE, f"e5-conc-{os.getpid()}.json")
     keys = ("given", "raised", "errclass", "val", "exec", "dup", "async", "built", "twice", "constret", "conc", "loop", "pre")
     with open(path, "w") as f:
-        json.dump({"progs": stripped, "obs": [{"p": r["p"], **{k: r[k] for k in keys}} for r in obs]}, f)
+        json.dump({"progs": stripped, "obs": [{"p": r["p"], "fresh_same": True, **{k: r[k] for k in keys}} for r in obs]}, f)
     try:
         r = tlc.run_tlc("DfCheck", "DfCheck.cfg", env={"CASE_FILE": path}, workers=1, heap="3g", timeout=3600)
     finally:
